@@ -92,18 +92,25 @@ fn c06_table_range_predicates_never_hide_a_key() {
 	// x is a user key stored in the table and selected by the query
 	kani::assume(s <= x && x <= l);
 	kani::assume(in_user_range(x, lk, lo, uk, hi));
-	let t = mk_table(7, Some(s), Some(l), (Some(1), Some(1)));
+	// the table holds versions with sequence numbers in [seq_lo, seq_hi]; the reader's lookup key
+	// carries its snapshot horizon `look`, and at least the table's oldest version is visible to it
+	let seq_lo: u64 = kani::any();
+	let seq_hi: u64 = kani::any();
+	let look: u64 = kani::any();
+	kani::assume(seq_lo >= 1 && seq_lo <= seq_hi && seq_hi < (1 << 56) && look >= seq_lo && look < (1 << 56));
+	let t = mk_table(7, Some(s), Some(l), (Some(seq_lo), Some(seq_hi)));
 	let range = crate::user_range_to_internal_range(mk_bound(lk, lo), mk_bound(uk, hi));
 	let before = t.is_before_range(&range);
 	let after = t.is_after_range(&range);
 	let overlaps = t.overlaps_with_range(&range);
-	let xin = t.is_key_in_key_range(&InternalKey::new(x.to_vec(), 5, InternalKeyKind::Set, 0));
+	let xin = t.is_key_in_key_range(&InternalKey::new(x.to_vec(), look, InternalKeyKind::Set, 0));
 	#[cfg(verif_replay)]
 	println!("REPLAY table [{:?},{:?}] x={:?} range lo({})={:?} hi({})={:?} -> before={} after={} overlaps={} key_in_range={}", s, l, x, lk, lo, uk, hi, before, after, overlaps, xin);
 	assert!(!before, "table skipped as 'before the range' although it holds a key of the range");
 	assert!(!after, "table skipped as 'after the range' although it holds a key of the range");
 	assert!(overlaps, "overlaps_with_range false although the table holds a key of the range");
-	assert!(xin, "is_key_in_key_range false for a key inside the table's span");
+	assert!(xin, "is_key_in_key_range false for a key inside the table's span (a version visible to the reader may be in this table)");
+	kani::cover!(look < seq_hi, "table also holds versions newer than the reader's horizon");
 	kani::cover!(lk == 2 && x > lo && s <= lo, "excluded lower bound inside the table span");
 	kani::cover!(uk == 2 && l >= hi, "excluded upper bound inside the table span");
 	kani::cover!(uk == 1 && x == hi && x == s, "included upper bound equals the table's smallest key");
@@ -299,6 +306,38 @@ fn c16_read_footer_total_on_short_files() {
 	}
 	kani::cover!(r.is_err() && file_size >= TABLE_FULL_FOOTER_LENGTH, "full-size file rejected (bad magic / handles)");
 	kani::cover!(file_size == TABLE_FULL_FOOTER_LENGTH - 1, "one byte short of a footer");
+	core::mem::forget(r);
+	core::mem::forget(file);
+}
+
+/// C16-O2c: ANY footer content (all 42 footer bytes arbitrary, magic intact - i.e. damage of any number
+/// of bytes): whatever read_footer accepts has both block handles, including their trailers, inside
+/// the file - sizes that would overflow `usize` included.
+#[kani::proof]
+#[kani::unwind(12)]
+#[kani::stub(std::fmt::format, crate::verif_models::no_format)]
+fn c16_read_footer_never_accepts_handles_outside_file() {
+	const DATA: usize = 100;
+	const FILE: usize = DATA + TABLE_FULL_FOOTER_LENGTH;
+	let mut buf: [u8; TABLE_FULL_FOOTER_LENGTH] = kani::any();
+	buf[TABLE_FOOTER_LENGTH..].copy_from_slice(&TABLE_MAGIC_FOOTER_ENCODED);
+	let mut image = [0u8; FILE];
+	image[DATA..].copy_from_slice(&buf);
+	let file: Arc<dyn File> = Arc::new(image.to_vec());
+	let r = read_footer(Arc::clone(&file), FILE);
+	let trailer = BLOCK_COMPRESS_LEN + BLOCK_CKSUM_LEN;
+	match &r {
+		Ok(g) => {
+			#[cfg(verif_replay)]
+			println!("REPLAY read_footer accepted handles meta={:?} index={:?} in a {}-byte file", g.meta_index, g.index, FILE);
+			let m_in = g.meta_index.size <= DATA && g.meta_index.offset <= DATA && g.meta_index.offset + g.meta_index.size + trailer <= DATA;
+			let i_in = g.index.size <= DATA && g.index.offset <= DATA && g.index.offset + g.index.size + trailer <= DATA;
+			assert!(m_in && i_in, "footer accepted with a block handle outside the file (its size drives an unchecked allocation)");
+		}
+		Err(_) => {}
+	}
+	kani::cover!(r.is_ok(), "some arbitrary footer accepted");
+	kani::cover!(r.is_err(), "some arbitrary footer rejected");
 	core::mem::forget(r);
 	core::mem::forget(file);
 }
